@@ -5,11 +5,16 @@ import os
 def run(ctx):
     t = ctx.tier
     ctx.rule = ("TLC enumerates every behaviour (sequence of writes of Set Chunk Size / data messages by either endpoint, lengths relative to the "
-                "writer's current chunk size) of RtmpSession within the cfg bounds; each finished behaviour is replayed into two real "
-                "rtmp.Protocol endpoints after the real handshake under whole/random/1-byte read segmentation and lock-step/deferred reads; "
-                "a case is distinct if its write sequence differs")
+                "writer's current chunk size; in the Gen_Session_hs cfgs also every order, up to commuting neighbours, of the two endpoints' six "
+                "handshake calls and the first session writes that RTMP 1.0 5.2.1 allows) of RtmpSession within the cfg bounds; each finished "
+                "behaviour is replayed in the order of its schedule into two real endpoints (rtmp.Handshake, then rtmp.Protocol) that share ONE "
+                "byte stream per direction, under whole (as much as asked)/random/1-byte read segmentation and lock-step/deferred reads; "
+                "a case is distinct if its write sequence or its schedule differs")
     ctx.exhaustive = True
     ctx.assumptions += ["payload bytes are a position-dependent pattern, not all byte strings",
+                        "handshake calls are made in an order RTMP 1.0 5.2.1 allows (S0 after C0, C2 after S1, S2 after C1, session data only "
+                        "after the own handshake); one Handshake object per endpoint; the replay is single-threaded, a read is only called "
+                        "when its bytes are in the transport",
                         "2^24-1 byte payloads only in the thorough tier; 1-byte segmentation only for behaviours up to 20 kB, random up to 400 kB",
                         "messages are built with NewStreamMessage (chunk stream 5) or on chunk stream 2 for protocol control; chunk stream id 0/1 of NewMessage() is outside the property"]
     ctx.sany("rtmp", "RtmpSession")
@@ -20,12 +25,18 @@ def run(ctx):
     ctx.tlc("rtmp", "MC_RtmpSession", "MC_Session_header.cfg")
     # non-vacuity: a writer that does not follow its own Set Chunk Size desynchronises the session
     ctx.tlc("rtmp", "MC_RtmpSession", "MC_Session_deviation.cfg", expect_violation="NoDesync", count_states=False)
+    # handshake and session on one byte stream per direction: every interleaving of the two endpoints' six handshake calls and of the
+    # first session messages that RTMP 1.0 5.2.1 allows; each handshake read takes exactly its 1/1536 bytes (HsExact)
+    ctx.tlc("rtmp", "MC_RtmpSession", "MC_Session_hs.cfg")
+    # non-vacuity: a handshake read through a buffer of its own takes what the peer wrote behind the packet
+    ctx.tlc("rtmp", "MC_RtmpSession", "MC_Session_hs_deviation.cfg", expect_violation="HsExact", count_states=False)
     # chunk-level refinement of the library's writer (fmt 0 + fmt 3, no interleaving) against the reference receiver
     ctx.tlc("rtmp", "MC_RtmpChunk", "MC_Chunk_libwriter.cfg")
     ctx.tlc("rtmp", "MC_RtmpChunk", "MC_Chunk_libwriter_deviation.cfg", expect_violation="Agree", count_states=False)
 
     cases = os.path.join(ctx.out, "cases.ndjson")
-    gens = ["Gen_Session_agree.%s.cfg" % t, "Gen_Session_single.cfg", "Gen_Session_pair.cfg", "Gen_Session_bidir.%s.cfg" % t]
+    gens = ["Gen_Session_agree.%s.cfg" % t, "Gen_Session_single.cfg", "Gen_Session_pair.cfg", "Gen_Session_bidir.%s.cfg" % t,
+            "Gen_Session_hs.%s.cfg" % t]
     if t == "thorough":
         gens.append("Gen_Session_big.thorough.cfg")
     for g in gens:
@@ -33,5 +44,7 @@ def run(ctx):
     if t == "thorough":
         ctx.exhaustive = False
         ctx.tlc("rtmp", "MC_RtmpSession", "Gen_Session_sim.cfg", cases_to=cases, simulate=1500, depth=40, workers=1, timeout=900)
+        # random long behaviours in which the handshake calls of both endpoints and the first session writes interleave
+        ctx.tlc("rtmp", "MC_RtmpSession", "Gen_Session_hssim.cfg", cases_to=cases, simulate=600, depth=40, workers=1, timeout=900)
     res = ctx.replay("session", cases, timeout=3000)
     ctx.judge("session", cases, res)
